@@ -15,6 +15,7 @@ RULE = ('Removal-enabled graphs of both classes (3-5 nodes, <= 6 snapshot ids, i
         'departure, reaches v, key == (first node, last node), no duplicates under a key. '
         'non-trivial = some returned path has >= 3 hops and the window end is not the last id.')
 ASSUMPTIONS = ['e > t', "node ids are ints or '_'-free strings (the statement's restriction)", 'windows lie inside [first id, last id]', 'sample=1']
+TECHNIQUE = 'PBT with a validity predicate: every returned path checked hop by hop against the reference model; exhaustive small universes (thorough)'
 BUDGET = {'quick': {'cases': 6000, 'seconds': 50}, 'thorough': {'cases': 90000, 'seconds': 560}}
 QUERIES = st.lists(pc.QUERY, min_size=4, max_size=4)
 
